@@ -31,7 +31,7 @@ JudgeOut(what, e, want) ==
   ELSE IF e.ok /\ e.out2 # "=" /\ e.out2 # e.out THEN <<what \o " not deterministic", BytesToHex(want[2])>>
   ELSE <<>>
 
-Judge(e) ==
+JudgeValue(e) ==
   CASE e.ev = "construct" -> <<>>                       \* coverage only (DESIGN section 4)
     [] e.ev = "compute" ->                               \* one ComputePRF(input, n) call (and its repetition)
          JudgeOut("ComputePRF", e, IF Over(e, PRFMaxLen(Cfg(e))) THEN Fail
@@ -76,6 +76,15 @@ Judge(e) ==
          IN  IF e.valid THEN (IF got = <<TRUE, HexToBytes(e.out)>> THEN <<>> ELSE <<"SPEC: HKDF differs from the vector", e.kind>>)
              ELSE IF got[1] THEN <<"SPEC: HKDF produces output for an invalid vector", e.kind>> ELSE <<>>
     [] OTHER -> <<"unknown event", e.ev>>
+
+\* Every byte string handed to the real code lives in a driver buffer with sentinel-filled spare capacity and guard
+\* zones; inIntact records that input bytes, spare capacity and guards were unchanged after the call(s) of the event.
+\* A call that alters its input has not computed the standard value "for the caller's input": judged together with
+\* the value.  (Known-answer events of the reference gate carry no inIntact.)
+Judge(e) ==
+  IF "inIntact" \in DOMAIN e /\ ~e.inIntact
+  THEN <<"the call altered a buffer handed in by the caller (input bytes, spare capacity or guard zone)", "unchanged">>
+  ELSE JudgeValue(e)
 
 Start == IF "VERIF_START" \in DOMAIN IOEnv THEN atoi(IOEnv.VERIF_START) ELSE 1
 
